@@ -784,6 +784,24 @@ fn case_markdown(rep: &mut Report, text: &str, ilt: bool, dict: &Arc<FstDictiona
                 Err(m) => fail(rep, "md_doc_panic", mark("md_doc_panic", &format!("Document::new panicked on Markdown tokens that all cover characters, contract met: {m} at {}", last_panic_location())), inp.clone()),
             }
         }
+        // C02_document_markdown_breaks (phase 6): contract met and every zero-width Markdown token is a ParagraphBreak (no
+        // Start(List) Newline) => Document::parse does not panic, the document keeps the invariant (general_failures above:
+        // bounds / order / zero-width kinds) and every zero-width document token is again a ParagraphBreak
+        let zw_other = |t: &Token| zw(t) && !matches!(t.kind, TokenKind::ParagraphBreak);
+        if bad.is_empty() && !pts.iter().any(zw_other) {
+            rep.count("md_doc_in_breaks_theorem_domain(zero-width parser tokens are ParagraphBreaks)");
+            if pts.iter().any(zw) {
+                rep.count("md_doc_in_breaks_theorem_domain:with_a_floating_break");
+            }
+            match &doc {
+                Ok(ts) => {
+                    if let Some((i, t)) = ts.iter().enumerate().find(|(_, t)| zw_other(t)) {
+                        fail(rep, "md_doc_breaks_zero_width", mark("md_doc_breaks_zero_width", &format!("[markdown] document token {i} at {} ({}) is zero-width and no ParagraphBreak although every zero-width Markdown token is one", t.span.start, kind_str(&t.kind))), inp.clone());
+                    }
+                }
+                Err(m) => fail(rep, "md_doc_breaks_panic", mark("md_doc_breaks_panic", &format!("Document::new panicked on Markdown tokens whose zero-width tokens are all ParagraphBreaks, contract met: {m} at {}", last_panic_location())), inp.clone()),
+            }
+        }
         // the shapes the three _limit Examples isolate (what a theorem about zero-width tokens must exclude), counted on real vectors
         let mut cover_end = 0usize;
         for (i, t) in pts.iter().enumerate() {
